@@ -256,6 +256,124 @@ def _py_sha512_256(msg):
     return b"".join(x.to_bytes(8, "big") for x in H[:4]).hex()
 
 
+def _rotl32(x, n):
+    return ((x << n) | (x >> (32 - n))) & 0xffffffff
+
+
+def _md5_compress(H, blk):
+    import math
+    T = [int(abs(math.sin(i + 1)) * (1 << 32)) & 0xffffffff for i in range(64)]
+    S = [7, 12, 17, 22] * 4 + [5, 9, 14, 20] * 4 + [4, 11, 16, 23] * 4 + [6, 10, 15, 21] * 4
+    X = [int.from_bytes(blk[4 * j:4 * j + 4], "little") for j in range(16)]
+    a, b, c, d = H
+    for i in range(64):
+        if i < 16:
+            f, k = (b & c) | (~b & d), i
+        elif i < 32:
+            f, k = (b & d) | (c & ~d), (1 + 5 * i) % 16
+        elif i < 48:
+            f, k = b ^ c ^ d, (5 + 3 * i) % 16
+        else:
+            f, k = c ^ (b | ~d), (7 * i) % 16
+        a, b, c, d = d, (b + _rotl32((a + f + X[k] + T[i]) & 0xffffffff, S[i])) & 0xffffffff, b, c
+    return [(x + y) & 0xffffffff for x, y in zip(H, [a, b, c, d])]
+
+
+def _sha1_compress(H, blk):
+    W = [int.from_bytes(blk[4 * j:4 * j + 4], "big") for j in range(16)]
+    for t in range(16, 80):
+        W.append(_rotl32(W[t - 3] ^ W[t - 8] ^ W[t - 14] ^ W[t - 16], 1))
+    a, b, c, d, e = H
+    for t in range(80):
+        if t < 20:
+            f, k = (b & c) ^ (~b & d), 0x5a827999
+        elif t < 40:
+            f, k = b ^ c ^ d, 0x6ed9eba1
+        elif t < 60:
+            f, k = (b & c) ^ (b & d) ^ (c & d), 0x8f1bbcdc
+        else:
+            f, k = b ^ c ^ d, 0xca62c1d6
+        a, b, c, d, e = (_rotl32(a, 5) + f + e + k + W[t]) & 0xffffffff, a, _rotl32(b, 30), c, d
+    return [(x + y) & 0xffffffff for x, y in zip(H, [a, b, c, d, e])]
+
+
+def _iroot_frac(p, k, bits):
+    n, lo, hi = p << (k * bits), 0, 1 << (bits + 8)
+    while lo < hi:
+        mid = (lo + hi + 1) // 2
+        if mid ** k <= n:
+            lo = mid
+        else:
+            hi = mid - 1
+    return lo & ((1 << bits) - 1)
+
+
+def _primes(n):
+    ps, c = [], 2
+    while len(ps) < n:
+        if all(c % p for p in ps):
+            ps.append(c)
+        c += 1
+    return ps
+
+
+_K = {}
+
+
+def _sha2_compress(H, blk, w):
+    """w = 32 (SHA-256) or 64 (SHA-512): FIPS 180-4 6.2.2 / 6.4.2, constants from their defining formula"""
+    M = (1 << w) - 1
+    nr = 64 if w == 32 else 80
+    if w not in _K:
+        _K[w] = [_iroot_frac(p, 3, w) for p in _primes(nr)]
+    K = _K[w]
+    r = (lambda x, n: ((x >> n) | (x << (w - n))) & M)
+    if w == 32:
+        S0, S1 = (2, 13, 22), (6, 11, 25)
+        s0 = lambda x: r(x, 7) ^ r(x, 18) ^ (x >> 3)
+        s1 = lambda x: r(x, 17) ^ r(x, 19) ^ (x >> 10)
+    else:
+        S0, S1 = (28, 34, 39), (14, 18, 41)
+        s0 = lambda x: r(x, 1) ^ r(x, 8) ^ (x >> 7)
+        s1 = lambda x: r(x, 19) ^ r(x, 61) ^ (x >> 6)
+    wb = w // 8
+    W = [int.from_bytes(blk[wb * j:wb * j + wb], "big") for j in range(16)]
+    for t in range(16, nr):
+        W.append((s1(W[t - 2]) + W[t - 7] + s0(W[t - 15]) + W[t - 16]) & M)
+    a, b, c, d, e, f, g, h = H
+    for t in range(nr):
+        T1 = (h + (r(e, S1[0]) ^ r(e, S1[1]) ^ r(e, S1[2])) + ((e & f) ^ (~e & g)) + K[t] + W[t]) & M
+        T2 = ((r(a, S0[0]) ^ r(a, S0[1]) ^ r(a, S0[2])) + ((a & b) ^ (a & c) ^ (b & c))) & M
+        a, b, c, d, e, f, g, h = (T1 + T2) & M, a, b, c, (d + T1) & M, e, f, g
+    return [(x + y) & M for x, y in zip(H, [a, b, c, d, e, f, g, h])]
+
+
+_PY = {  # alg: (block, length-field bytes, IV, compress, length byte order, word bytes, word order, digest words)
+    "md5": (64, 8, [0x67452301, 0xefcdab89, 0x98badcfe, 0x10325476], _md5_compress, "little", 4, "little", 4),
+    "sha1": (64, 8, [0x67452301, 0xefcdab89, 0x98badcfe, 0x10325476, 0xc3d2e1f0], _sha1_compress, "big", 4, "big", 5),
+    "sha256": (64, 8, [_iroot_frac(p, 2, 32) for p in _primes(8)], lambda H, b: _sha2_compress(H, b, 32), "big", 4, "big", 8),
+    "sha512_256": (128, 16, [0x22312194FC2BF72C, 0x9F555FA3C84C64C2, 0x2393B86B6F53B151, 0x963877195940EABD,
+                             0x96283EE2A88EFFE3, 0xBE5E1E2553863992, 0x2B0199FC2C85B8AA, 0x0EB72DDC81C52CA2],
+                   lambda H, b: _sha2_compress(H, b, 64), "big", 8, "big", 4),
+}
+_PY["wssha1"] = _PY["sha1"]
+
+
+def reference_long(alg, prefix, msg):
+    """the standard digest of (P || msg) where P is a virtual prefix of `prefix` bytes (a multiple of the
+    block size) whose blocks are taken to leave the chaining value at the IV: i.e. the standard's
+    computation on `msg` from the IV with the length field of a (prefix+|msg|)-byte message.
+    Pure Python, written from the standards; used where hashlib cannot go (byte counts near 2^61, 2^64)."""
+    B, L, IV, comp, lorder, wb, worder, dw = _PY[alg]
+    total = prefix + len(msg)
+    m = bytearray(msg) + b"\x80"
+    m += b"\0" * ((B - L - len(m)) % B) + ((8 * total) % (1 << (8 * L))).to_bytes(L, lorder)
+    H = list(IV)
+    for i in range(0, len(m), B):
+        H = comp(H, bytes(m[i:i + B]))
+    return b"".join(x.to_bytes(wb, worder) for x in H[:dw]).hex()
+
+
 def _have(name):
     try:
         hashlib.new(name, b"")
@@ -281,11 +399,16 @@ def hx(b):
     return b.hex() if b else "-"
 
 
-def case_lines(alg, chunks, offs, pre=None):
+def case_lines(alg, chunks, offs, pre=None, prefix=0):
     ls = []
     if pre is not None:      # an abandoned message before this one (context re-use without finish)
         ls += ["init " + alg, "update %s %d %s" % (alg, pre[0], hx(pre[1]))]
     ls.append("init " + alg)
+    if prefix:               # white box: a virtual prefix of `prefix` bytes (see harness `setcount`)
+        if alg == "sha512_256":
+            ls.append("setcount %s %d %d" % (alg, prefix % (1 << 61), (prefix >> 61) % (1 << 64)))
+        else:
+            ls.append("setcount %s %d 0" % (alg, prefix % (1 << 64)))
     for c, o in zip(chunks, offs):
         ls.append("update %s %d %s" % (alg, o, hx(c)))
     ls.append("finish " + alg)
@@ -324,6 +447,22 @@ def gen_cases(rng, alg, tier, boost):
         if n <= two_way:
             for k in range(n + 1):
                 cases.append((alg, [msg[:k], msg[k:]], [(k + n) % 16, (3 * k + 1) % 16], "split2", None))
+    # byte counters near their wrap-arounds (white box `setcount`; reference: pure-Python standard)
+    B = 128 if alg == "sha512_256" else 64
+    L = 16 if alg == "sha512_256" else 8
+    if alg == "sha512_256":
+        prefixes = [(1 << 61) - B, (1 << 61), (1 << 62) - B, (1 << 64) - B, (1 << 64), (1 << 64) + B, (3 << 61) - B,
+                    (1 << 125) - B, (1 << 125) - 2 * B, (1 << 124), (1 << 100) - B, (1 << 32) - B]
+        prefixes += [rng.randrange(1 << 118) * B for _ in range(8)]
+    else:
+        prefixes = [(1 << 61) - B, (1 << 61), (1 << 61) + B, (1 << 63), (1 << 64) - B, (1 << 64) - 2 * B,
+                    (1 << 32) - B, (1 << 32), (1 << 29) - B, (1 << 29)]
+        prefixes += [rng.randrange(1 << 58) * B for _ in range(8)]
+    for P in prefixes:
+        for n in [0, 1, B - L - 1, B - L, B - 1, B, B + 1, 2 * B - L, 300]:
+            msg = bytes(rng.getrandbits(8) for _ in range(n))
+            ch = split_random(rng, msg) if rng.random() < 0.7 else [msg]
+            cases.append((alg, ch, [rng.randrange(16) for _ in ch], "long-count", None, P))
     nbig = (4 if tier == "thorough" else 2) * (2 if boost else 1)
     for i in range(nbig):
         n = (1 << 20) + rng.choice([0, 1, 55, 56, 63, 64, 111, 112, 127])
@@ -381,8 +520,9 @@ class Spec:
     def run_batch(self, alg, cases, failures, stats):
         """cases of one algorithm -> harness, driver, oracle"""
         lines, spans = [], []
-        for (a, chunks, offs, tag, pre) in cases:
-            ls = case_lines(a, chunks, offs, pre)
+        cases = [c if len(c) > 5 else c + (0,) for c in cases]
+        for (a, chunks, offs, tag, pre, prefix) in cases:
+            ls = case_lines(a, chunks, offs, pre, prefix)
             msg = b"".join(chunks)
             if len(msg) <= 300 and tag in ("oneshot", "multi"):
                 ls.append("spec %s %s" % (a, hx(msg)))
@@ -392,7 +532,7 @@ class Spec:
         mout, mrc, merr = vlib.run_lines(self.driver, lines, timeout=1200)
         if hrc != 0:
             pos = len(hout)
-            for (a, chunks, offs, tag, pre), (st, ln) in zip(cases, spans):
+            for (a, chunks, offs, tag, pre, prefix), (st, ln) in zip(cases, spans):
                 if st + ln > pos:
                     failures.append(vlib.Failure("sanitizer", "hash %s: harness aborted (%s)" % (alg, _san_kind(herr)),
                                                  herr[-1500:], lines[st:st + ln], "hash"))
@@ -401,9 +541,9 @@ class Spec:
                 failures.append(vlib.Failure("sanitizer", "hash %s: harness aborted at exit (%s)" % (alg, _san_kind(herr)),
                                              herr[-1500:], lines[-5:], "hash"))
             return
-        for (a, chunks, offs, tag, pre), (st, ln) in zip(cases, spans):
+        for (a, chunks, offs, tag, pre, prefix), (st, ln) in zip(cases, spans):
             msg = b"".join(chunks)
-            want = "digest " + reference(a, msg)
+            want = "digest " + (reference_long(a, prefix, msg) if prefix else reference(a, msg))
             h = hout[st:st + ln]
             m = mout[st:st + ln]
             nspec = 1 if lines[st + ln - 1].startswith("spec ") else 0
@@ -420,8 +560,10 @@ class Spec:
                 got = h[fin] if len(h) > fin else "<no output>"
                 kind = "mismatch between alignments" if got.startswith("mismatch") else "digest differs from the standard"
                 failures.append(vlib.Failure("oracle", "hash %s: %s" % (shape, kind),
-                                             "len=%d chunks=%s: code says '%s', standard says '%s'"
-                                             % (L, [len(c) for c in chunks][:12], got, want), inp, "hash"))
+                                             "len=%d chunks=%s%s: code says '%s', standard says '%s'"
+                                             % (L, [len(c) for c in chunks][:12],
+                                                " after a virtual prefix of %d bytes" % prefix if prefix else "",
+                                                got, want), inp, "hash"))
                 continue
             if nspec and h[ln - 1] != want:
                 failures.append(vlib.Failure("oracle", "hash %s: one-shot digest differs from the standard" % a,
@@ -449,6 +591,11 @@ class Spec:
             for f in sorted(os.listdir(cdir)):
                 corpus.append(json.load(open(os.path.join(cdir, f))))
         samples, distinct = [], set()
+        for alg in self.algs:   # the pure-Python reference used for the long-count cases must agree with hashlib
+            for n in (0, 1, 55, 56, 64, 111, 112, 128, 129, 300):
+                m = ctx.rng.randbytes(n)
+                if reference_long(alg, 0, m) != reference(alg, m):
+                    raise RuntimeError("oracle self-test failed: pure-Python %s != hashlib" % alg)
         for alg in self.algs:
             cases = [tuple([c["alg"], [bytes.fromhex(x) for x in c["chunks"]], c["offs"], "corpus", None])
                      for c in corpus if c["alg"] == alg]
@@ -474,7 +621,8 @@ class Spec:
                        "and digest misalignment 0..15, contexts re-used across messages), the Lean model, and hashlib; "
                        "distinct = different (algorithm, chunk-length sequence); exhaustive sub-domains: every length 0..300 "
                        "one-shot and byte-by-byte, every 2-way split of every length <= %d; random: multi-way splits with "
-                       "empty chunks, abandoned messages before init, 1 MiB messages" % (140 if ctx.tier == "quick" else 300),
+                       "empty chunks, abandoned messages before init, 1 MiB messages; white-box byte counters near 2^29, 2^32, 2^61, 2^64 "
+                       "(and 2^125 for SHA-512/256) against a pure-Python transcription of the standards" % (140 if ctx.tier == "quick" else 300),
                "samples": samples, "algorithms": self.algs, "outcomes": {"agree_all_three": stats["agree"]},
                "by_mode": stats["by_tag"], "length_classes": stats["len_class"], "chunks_fed": stats["chunks"],
                "empty_chunks_fed": stats["empty_chunks"], "per_algorithm": stats["per_alg"],
